@@ -78,6 +78,18 @@ def gen_case_f(rng):
     defx = rng.random() < 0.25
     xs = [float(i) for i in range(n)] if defx else gen.axis_f(rng, n, rng.choice(["unit", "uniform", "geometric", "log", "ulps", "random", "evenish", "even", "nearly_even", "indexlike", "tail", "tail"]))
     flat = [rng.uniform(-1, 1) * 10.0 ** rng.randint(-3, 6) for _ in range(gen.shape_size(shape))]
+    if not defx and rng.random() < 0.1:
+        # large samples of one sign lying close together over a finely spaced axis: every |y| / h overflows although every secant slope
+        # (y2 - y1) / h is an ordinary number (seed C01-r10m1: the slope written as y2/dx - y1/dx)
+        h_ = 2.0 ** -rng.randint(8, 16)
+        a_ = rng.uniform(-3, 3)
+        xs = [a_ + i * h_ * rng.choice([1, 1, 2]) for i in range(n)]
+        xs = sorted(set(xs))
+        if len(xs) == n:
+            big_ = rng.choice([1.0e305, -1.0e305, 3.0e304])
+            flat = [big_ * (1.0 + rng.uniform(-1, 1) * 2.0 ** -12) for _ in range(gen.shape_size(shape))]
+        else:
+            xs = [float(i) for i in range(n)]
     qs = [q for q in gen.queries_f(rng, xs, 10, special=False) if xs[0] <= q <= xs[-1]]
     return shape, defx, xs, flat, qs
 
